@@ -9,7 +9,7 @@ def run(ctx):
              "every codec/geometry class produced by the real encoders in this run (20 package-level, 15 registered-codec entries incl. "
              "RLE) plus third-party HTJ2K fixtures. Edit plan from TLC (spec/Robust.tla, field-aware through the Markers grammar): "
              "every header byte x value set (structural bytes: 0..40 and a spread of 37 high values in quick, all 256 in thorough; "
-             "other bytes: 8 boundary values / all 256), body bytes, every truncation point, random tails after valid prefixes, "
+             "other bytes: 8 boundary values / 26 boundary values), body bytes, every truncation point, random tails after valid prefixes, "
              "sampled double edits, FrameInfo grid for codec-level entries (zero / mismatching Rows, Columns, BitsAllocated, SPP, "
              "Planar). TLC (RobustTrace) accepts outcome in {ok, error}. distinct_nontrivial = distinct (entry point, template, "
              "outcome, edit kind)",
